@@ -63,46 +63,11 @@ def repo_lines_of(b, f):
     return sum(1 for ln in range(f.start, f.end + 1) if b.origin[ln - 1][0] == 'repo')
 
 
-def vac_levels(fns, targets):
-    """call-graph layers among the target functions: a function and its (target) callees are never
-    given `ensures false` in the same round, because callers assume callee postconditions"""
-    byq = {f.qual: f for f in fns}
-    names = {}
-    for q in targets:
-        names.setdefault(byq[q].name, []).append(q)
-    calls = {}
-    for q in targets:
-        body = getattr(byq[q], 'body_text', '')
-        cs = set()
-        for name, quals in names.items():
-            if re.search(r'(?<![\w])%s\s*(?:::<[^(]*>)?\(' % re.escape(name), body):
-                cs |= set(quals)
-        cs.discard(q)
-        calls[q] = cs
-    level = {}
-
-    def lv(q, stack=()):
-        if q in level:
-            return level[q]
-        if q in stack:
-            return 0
-        l = 0
-        for c in calls[q]:
-            l = max(l, lv(c, stack + (q,)) + 1)
-        level[q] = l
-        return l
-
-    for q in targets:
-        lv(q)
-    rounds = {}
-    for q, l in level.items():
-        rounds.setdefault(l, set()).add(q)
-    return [rounds[k] for k in sorted(rounds)]
-
-
-def vacuity_text(b, fns, round_targets, all_exec):
-    """copy of the build text in which every function of this round additionally ensures false and
-    every other verified exec function is skipped (external_body)"""
+def vacuity_text(b, fns, targets):
+    """copy of the build text in which every target function gets two reachability probes, `assert(false)` at the
+    entry of its body and before its last top-level statement; both must FAIL (a probe that verifies means the point
+    is unreachable: contradictory precondition, or a contradictory assumed contract of something called before it).
+    Returns (text, {build line of probe: (function, kind)})."""
     text = b.text
     mask = rustscan.code_mask(text)
     line_off = [0]
@@ -111,68 +76,83 @@ def vacuity_text(b, fns, round_targets, all_exec):
             line_off.append(i + 1)
     edits = []
     for f in fns:
-        lo = line_off[f.start - 1]
-        if f.qual in all_exec and f.qual not in round_targets:
-            edits.append((lo, '#[verifier::external_body] '))
+        if f.qual not in targets:
             continue
-        if f.qual not in round_targets:
+        # body braces
+        p = line_off[f.body_start - 1]
+        q = text.find('{', p)
+        while q >= 0 and not mask[q]:
+            q = text.find('{', q + 1)
+        if q < 0:
             continue
-        hi = line_off[f.body_start - 1] + len(b.lines[f.body_start - 1])
-        hdr = text[lo:hi]
-        mm = None
-        for m2 in re.finditer(r'\bensures\b', hdr):
-            if mask[lo + m2.start()]:
-                mm = m2
-                break
-        if mm:
-            edits.append((lo + mm.end(), ' false, '))
-        else:
-            p = line_off[f.body_start - 1]
-            q = text.find('{', p)
-            md = None
-            for m2 in re.finditer(r'\bdecreases\b', hdr):
-                if mask[lo + m2.start()]:
-                    md = m2
-            if md:
-                edits.append((lo + md.start(), ' ensures false, '))
-            else:
-                edits.append((q, ' ensures false, '))
+        close = rustscan.match_close(text, mask, q)
+        # start of the last top-level statement of the body
+        depth = 0
+        last = None
+        k = q + 1
+        expect = True
+        while k < close:
+            if mask[k]:
+                c = text[k]
+                if expect and not c.isspace():
+                    last = k
+                    expect = False
+                if c in '([{':
+                    depth += 1
+                elif c in ')]}':
+                    depth -= 1
+                    if depth == 0 and c == '}':
+                        expect = True
+                elif c == ';' and depth == 0:
+                    expect = True
+            k += 1
+        edits.append((q + 1, ' proof { if vac_flag__(0) { assert(false); } } /*VAC-ENTRY %s*/ ' % f.qual))
+        if last is not None and last > q + 1:
+            # ghost lines start with the marker comment: step over it
+            ls = text.rfind('\n', 0, last) + 1
+            edits.append((ls, 'proof { assert(false); } /*VAC-END %s*/\n' % f.qual))
     for off, ins in sorted(edits, reverse=True):
         text = text[:off] + ins + text[off:]
+    # an uninterpreted flag keeps the entry probe from cutting off the rest of the body (a failed assert is assumed afterwards)
+    text = text + '\nverus! { pub uninterp spec fn vac_flag__(i: int) -> bool; }\n'
     return text
 
 
 def run_vacuity(r, targets):
+    """one extra Verus run per unit; returns (result, {function: True if some probe VERIFIED (= vacuous)})"""
     b = r['build']
     fns = r['fns']
-    all_exec = set(f.qual for f in fns if f.mode == 'exec' and f.has_body and not f.external_body)
+    text = vacuity_text(b, fns, targets)
+    path = b.path.replace('.rs', '__vac.rs')
+    tmp = path + '.%d.tmp' % os.getpid()
+    open(tmp, 'w').write(text)
+    os.replace(tmp, path)
+    res = vx.cached_verus(path, text, extra=('--multiple-errors', '400'))
+    js = res.get('json') or {}
+    vr = js.get('verification-results', {}) if js else {}
+    if not js or vr.get('encountered-vir-error') or vr.get('verified') is None:
+        return res, None
+    lines = text.split('\n')
+    probes = {}
+    for i, l in enumerate(lines):
+        for mm in re.finditer(r'/\*VAC-(ENTRY|END) (.*?)\*/', l):
+            probes[(mm.group(2), mm.group(1))] = i + 1
+    failed = set()
+    for d in res['diags']:
+        if d.get('level') != 'error' or 'assertion failed' not in d.get('message', ''):
+            continue
+        for sp in d.get('spans', []):
+            ln = sp.get('line_start', 0)
+            for key, pl in probes.items():
+                if pl == ln:
+                    failed.add(key)
     ok = {}
-    last = None
-    for k, rt in enumerate(vac_levels(fns, targets)):
-        ok_all = {}
-        text = vacuity_text(b, fns, rt, all_exec)
-        path = b.path.replace('.rs', '__vac%d.rs' % k)
-        tmp = path + '.%d.tmp' % os.getpid()
-        open(tmp, 'w').write(text)
-        os.replace(tmp, path)
-        res = vx.cached_verus(path, text)
-        last = res
-        js = res.get('json') or {}
-        vr = js.get('verification-results', {}) if js else {}
-        if not js or vr.get('encountered-vir-error') or vr.get('verified') is None:
-            return res, None
-        try:
-            for mt in js['times-ms']['smt']['smt-run-module-times']:
-                for fb in mt.get('function-breakdown', []):
-                    name = fb['function'].split('::', 1)[1] if '::' in fb['function'] else fb['function']
-                    ok_all[name] = ok_all.get(name, True) and fb.get('success', False)
-        except Exception:
-            pass
-        for q in rt:
-            vn = vname(q, ok_all)
-            if vn is not None:
-                ok[q] = ok_all[vn]
-    return last, ok
+    for (q, kind), pl in probes.items():
+        if (q, kind) not in failed:
+            ok[q] = True          # a probe verified: the point is unreachable
+        else:
+            ok.setdefault(q, False)
+    return res, ok
 
 
 def vname(qual, table):
@@ -228,6 +208,7 @@ def main(argv):
             results[k] = r2
 
     forced_replay = None
+    tool_findings = []
     trouble = []        # exit-2 reasons
     violations = []     # (unit, finding)
     weak_violations = []  # failed obligations in functions whose proof hints were lost: need a replayed input
@@ -249,9 +230,12 @@ def main(argv):
             unit_text = b.text
             fns = r['fns']
             mine = [f for f in fns if pid in props_of_fn(unit_text, f.qual)]
-            targets = set(f.qual for f in mine if f.mode == 'exec' and f.has_body and not f.external_body)
-            if targets:
-                vac_futs.append((r, targets, ex.submit(run_vacuity, r, targets)))
+            mine_t = set(f.qual for f in mine if f.mode == 'exec' and f.has_body and not f.external_body)
+            # the pass itself covers every verified exec function of the unit (so that its result is shared by all
+            # properties served by the unit); only the property's own functions are reported
+            targets = set(f.qual for f in fns if f.mode == 'exec' and f.has_body and not f.external_body)
+            if mine_t:
+                vac_futs.append((r, mine_t, ex.submit(run_vacuity, r, targets)))
         vac = [(r, t, fu.result()) for r, t, fu in vac_futs]
 
     for r in results:
@@ -290,7 +274,7 @@ def main(argv):
         for fd in r['findings']:
             relevant = (fd.fn in minenames) if fd.fn else False
             if fd.tags:
-                relevant = pid in fd.tags and relevant
+                relevant = (pid in fd.tags or any(t in fd.tags for t in cfg.get('also_tags', []))) and relevant
             if not relevant and fd.fn is None and fd.kind == 'tool':
                 relevant = True
             if not relevant:
@@ -298,7 +282,7 @@ def main(argv):
             fobj = next((f for f in fns if f.qual == fd.fn), None)
             has_repo = fobj is not None and repo_lines_of(b, fobj) > 0
             if fd.kind == 'tool':
-                trouble.append('unit %s fn %s: %s' % (r['tag'], fd.fn, fd.message[:200]))
+                tool_findings.append((r['tag'], fd))
                 continue
             if not has_repo:
                 trouble.append('unit %s: proof infrastructure lemma %s failed: %s' % (r['tag'], fd.fn, fd.message[:120]))
@@ -316,6 +300,12 @@ def main(argv):
                 weak_violations.append((r['tag'], fd))
             else:
                 violations.append((r['tag'], fd))
+
+    known_fns = set((u, fd.fn) for h, u, fd in known_hits if fd is not None)
+    for u, fd in tool_findings:
+        if 'rlimit' in fd.message.lower() and (u, fd.fn) in known_fns:
+            continue   # the solver gave up while searching for the proof of an obligation that is a listed known finding
+        trouble.append('unit %s fn %s: %s' % (u, fd.fn, fd.message[:200]))
 
     # vacuity: every targeted exec function must FAIL `ensures false`
     vac_checked = 0
